@@ -81,6 +81,34 @@ def arc_families():
     a4 = arc_through(6 + 0j, 5.0, 80, 280)
     out.append(('A-A circles twice', a3, a4, [(arc_param(O, -100, 100, P), arc_param(6 + 0j, 80, 280, P), P),
                                               (arc_param(O, -100, 100, P.conjugate()), arc_param(6 + 0j, 80, 280, P.conjugate()), P.conjugate())]))
+    # circular arcs whose x-axis-rotation is a multiple of 180 degrees (the same circle, the same traversal) against radial lines
+    for rot in (180, -180, 540, 360, 90):
+        P = 3 + 4j
+        base = math.degrees(cmath.phase(P))
+        for a0, a1 in ((base - 70, base + 40), (base + 100, base - 200)):
+            s_, e_ = 5.0 * cmath.exp(1j * math.radians(a0)), 5.0 * cmath.exp(1j * math.radians(a1))
+            arc = sp.Arc(s_, 5 + 5j, rot, abs(a1 - a0) > 180, a1 > a0, e_)
+            out.append(('A-L radial, arc rotation %d' % rot, arc, sp.Line(0.4 * P, 1.6 * P), [(arc_param(O, a0, a1, P), 0.5, P)]))
+            out.append(('A-L oblique, arc rotation %d' % rot, arc, sp.Line(P - (2 + 0.5j), P + (2 + 0.5j)), [(arc_param(O, a0, a1, P), 0.5, P)]))
+    # a straight segment through the whole circle: one of its two meetings with the circle lies off the arc (before / after the one on the arc)
+    up = arc_through(O, 5.0, 10, 170)
+    for rot in (0, 30):
+        arc = sp.Arc(up.start, 5 + 5j, rot, False, True, up.end)
+        for (p0, p1, t_on) in ((3 - 9j, 3 + 9j, 13 / 18.0), (3 + 9j, 3 - 9j, 5 / 18.0), (-3 - 6j, -3 + 6j, 10 / 12.0)):
+            d = p1 - p0
+            for nm, sg in (('L', sp.Line(p0, p1)), ('Q', sp.QuadraticBezier(p0, p0 + d / 2, p1)), ('C', sp.CubicBezier(p0, p0 + d / 3, p0 + 2 * d / 3, p1))):
+                P = p0 + t_on * d
+                out.append(('A-%s through the circle, one meeting off the arc (rotation %d)' % (nm, rot), arc, sg, [(arc_param(O, 10, 170, P), t_on, P)]))
+    # two circles of unequal radii, the small one centred near the rim of the big one (the common chord lies beyond the small centre)
+    for d_, r1 in ((9.0, 3.0), (8.0, 3.0), (11.0, 3.0), (9.5, 1.0)):
+        r0 = 10.0
+        x = (r0 * r0 - r1 * r1 + d_ * d_) / (2 * d_)
+        y = math.sqrt(r0 * r0 - x * x)
+        Pu, Pd = complex(x, y), complex(x, -y)
+        big = arc_through(O, r0, -40, 40)
+        au = math.degrees(cmath.phase(Pu - d_))
+        small_u = arc_through(complex(d_, 0), r1, au - 60, au + 50)
+        out.append(('A-A unequal radii d=%g r=%g' % (d_, r1), big, small_u, [(arc_param(O, -40, 40, Pu), arc_param(complex(d_, 0), au - 60, au + 50, Pu), Pu)]))
     # radius 13: (5,12), (12,5)
     a5 = arc_through(1 + 1j, 13.0, 0, 90)
     ln2 = sp.Line(1 + 1j + 0.5 * (5 + 12j), 1 + 1j + 1.5 * (5 + 12j))
@@ -94,7 +122,8 @@ def ellipse_families():
     out = []
     for A in ({'r': [5, 3], 'phi': 2, 'th': -5, 'dl': 9, 'c': [0, 0]}, {'r': [2, 7], 'phi': 3, 'th': 9, 'dl': -13, 'c': [1, 1]},
               {'r': [5, 3], 'phi': -6, 'th': 0, 'dl': 17, 'c': [-2, 4]}, {'r': [5, 3], 'phi': 9, 'th': 4, 'dl': -8, 'c': [3, -2]},
-              {'r': [2, 7], 'phi': 26, 'th': -3, 'dl': 21, 'c': [0, 0]}, {'r': [5, 5], 'phi': 3, 'th': 1, 'dl': 10, 'c': [2, 2]}):
+              {'r': [2, 7], 'phi': 26, 'th': -3, 'dl': 21, 'c': [0, 0]}, {'r': [5, 5], 'phi': 3, 'th': 1, 'dl': 10, 'c': [2, 2]},
+              {'r': [5, 3], 'phi': 12, 'th': 2, 'dl': 9, 'c': [0, 0]}, {'r': [5, 3], 'phi': -12, 'th': -4, 'dl': -10, 'c': [1, -1]}, {'r': [2, 7], 'phi': 36, 'th': 1, 'dl': 7, 'c': [0, 0]}):
         arc = am.concretise(A)
         n = abs(A['dl'])
         sg = 1 if A['dl'] > 0 else -1
@@ -132,4 +161,12 @@ def path_families():
     diag = sp.Path(Ln(-1 + 2j, 3 + 4j), sp.CubicBezier(3 + 4j, 4 + 4.5j, 5 + 5.5j, 7 + 5j), Ln(7 + 5j, 9 + 9j))
     # the first line enters the square through its left edge x=0 at y = 2.5 (t: x=-1+4t=0 -> t=.25 -> y = 2.5)
     out.append(('square x open path', sq, diag, [(3, 0, 2.5j), (1, 1, None)]))
+    # one segment returning to its own start (x(t) = 450 t (1-t), y(t) = 360 t (1-t)(1-2t)): the vertical line x = 72 meets it at t = 0.2 and 0.8
+    tear = sp.Path(sp.CubicBezier(0j, 150 + 120j, 150 - 120j, 0j))
+    vert = sp.Path(Ln(72 - 50j, 72 + 50j), Ln(72 + 50j, 200 + 50j))
+    out.append(('teardrop x line', tear, vert, [(0, 0, 72 + 34.56j), (0, 0, 72 - 34.56j)]))
+    # a rectangle (two of its sides run in the negative axis direction) around the apex of a parabola-like quadratic
+    rect = sp.Path(Ln(2 + 1j, 8 + 1j), Ln(8 + 1j, 8 + 3j), Ln(8 + 3j, 2 + 3j), Ln(2 + 3j, 2 + 1j))
+    hump = sp.Path(sp.QuadraticBezier(0j, 5 + 8j, 10 + 0j))       # y = 16 t (1 - t), x = 10 t: y = 3 at t = 1/4, 3/4 (top side); x = 2, 8 at t = 0.2, 0.8 where y = 2.56
+    out.append(('rectangle x hump', rect, hump, [(2, 0, 7.5 + 3j), (2, 0, 2.5 + 3j), (1, 0, 8 + 2.56j), (3, 0, 2 + 2.56j)]))
     return out
